@@ -121,8 +121,8 @@ def make_spec(rng, cell, max_n=12, max_d=12, n=None, d=None):
         spec['pad_before_data'] = int(rng.integers(1, 40))
         spec['pad_after_data'] = int(rng.integers(0, 20))
         spec['text_begin'] = 58 + int(rng.integers(0, 200))
-    if version != 'FCS2.0' and offsets == 'header' and rng.random() < 0.3:
-        spec['text_offsets'] = 'zero'
+    if version != 'FCS2.0' and offsets == 'header' and rng.random() < 0.45:
+        spec['text_offsets'] = 'zero' if rng.random() < 0.6 else 'other'
     if rng.random() < 0.3:
         spec['blank_analysis_header'] = True
     if rng.random() < 0.3:
